@@ -21,7 +21,7 @@ pub fn meta(m: &mut PropMeta) {
     m.explanation = "bounded-exhaustive input enumeration in crash-isolated workers; only termination with a verdict is judged";
     m.quick_bound = "soups <= 2 tokens x 10 contexts, <= 3 tokens x 2 contexts; 1-deviation mutations; growth families up to 8 KiB; option vectors with <= 2 deviations";
     m.thorough_bound = "soups <= 3 tokens x 10 contexts, <= 4 tokens x 2 contexts; 2-character deviations on two bases; complete option product";
-    m.quick_cap_s = 100.0;
+    m.quick_cap_s = 240.0;
     m.thorough_cap_s = 1800.0;
 }
 
@@ -1002,6 +1002,71 @@ impl Family for DeepNesting {
 }
 
 // ---------------------------------------------------------------------------------------------------------------
+// The pipe protocol at sizes beyond a pipe buffer: the request is written by a thread while the generator's output is
+// collected, so no order in which a generator reads and writes may leave both sides waiting for each other.
+
+pub struct PipeProtocol;
+const PP_BEHAVIOURS: [&str; 6] = ["reads everything, then replies", "replies (200 KB) BEFORE it reads anything", "replies and exits without reading", "closes its stdin, then replies", "reads 10 bytes, replies (200 KB), reads the rest", "writes 200 KB to stderr before it reads"];
+impl PipeProtocol {
+    fn scenario(idx: u64) -> (Scenario, String) {
+        let b = (idx % 6) as usize;
+        let big_request = (idx / 6) % 2 == 1;
+        let two = idx / 12 == 1;
+        let mut sc = Scenario::default();
+        sc.tree.push(("t.slice".into(), crate::proc::Node::File(b"module M\nstruct S { a: int32 }\n".to_vec())));
+        let big_reply = encode_reply(&[crate::proc::rfile("big.txt", &"generated line\n".repeat(14_000))], &[]);
+        let small_reply = encode_reply(&[crate::proc::rfile("small.txt", "x\n")], &[]);
+        let steps = match b {
+            0 => vec![Step::ReadAll, Step::Stdout(small_reply.clone()), Step::Exit(0)],
+            1 => vec![Step::Stdout(big_reply.clone()), Step::ReadAll, Step::Exit(0)],
+            2 => vec![Step::Stdout(small_reply.clone()), Step::Exit(0)],
+            3 => vec![Step::CloseStdin, Step::Stdout(small_reply.clone()), Step::Exit(0)],
+            4 => vec![Step::Read(10), Step::Stdout(big_reply.clone()), Step::ReadAll, Step::Exit(0)],
+            _ => vec![Step::Stderr("a long complaint\n".repeat(12_000).into_bytes()), Step::ReadAll, Step::Stdout(small_reply.clone()), Step::Exit(0)],
+        };
+        sc.gens.push(Gen { name: "gen".into(), install: Install::Script(Script(steps)) });
+        // (the arguments of a generator are part of what it is sent: a long argument makes a large request)
+        let spec = if big_request { format!("{{gen0}},blob={}", "b".repeat(100_000)) } else { "{gen0}".to_string() };
+        sc.argv = vec!["t.slice".into(), "-G".into(), spec];
+        if two {
+            sc.gens.push(Gen { name: "second".into(), install: Install::Script(Script(vec![Step::ReadAll, Step::Stdout(small_reply), Step::Exit(0)])) });
+            sc.argv.extend(["-G".to_string(), "{gen1}".to_string()]);
+        }
+        (sc, format!("generator that {}; request {}; {}", PP_BEHAVIOURS[b], if big_request { "of 100 KB (a long argument)" } else { "small" }, if two { "a healthy second generator behind it" } else { "alone" }))
+    }
+}
+impl Family for PipeProtocol {
+    fn name(&self) -> String {
+        format!("pipe-protocol/{} generator behaviours (order of reading and of writing 200 KB) x request small / 100 KB x alone / before a second generator: slicec ends within 20 s with exit status 0 or 1", PP_BEHAVIOURS.len())
+    }
+    fn len(&self) -> u64 {
+        24
+    }
+    fn hang_secs(&self) -> f64 {
+        90.0
+    }
+    fn describe(&self, idx: u64) -> Value {
+        json!({"scenario": Self::scenario(idx).1})
+    }
+    fn run(&self, idx: u64) -> CaseOut {
+        let (sc, what) = Self::scenario(idx);
+        let mut out = CaseOut::new(hash_str(&format!("c01pp{idx}")));
+        out.nontrivial = true;
+        let obs = run(&sc, Duration::from_secs(20));
+        let desc = || format!("{what}\nexit {:?} signal {:?} timed_out {}\nstderr {}", obs.exit_code, obs.signal, obs.timed_out, truncate(&show_bytes(&obs.stderr), 400));
+        if obs.timed_out {
+            out.violate("c01/pipe-protocol/no-verdict-within-20s", desc());
+        } else if let Some(loc) = obs.panic_location() {
+            out.violate(format!("c01/pipe-protocol/panic@{loc}"), desc());
+        } else if obs.signal.is_some() || !matches!(obs.exit_code, Some(0) | Some(1)) {
+            out.violate("c01/pipe-protocol/exit-status", desc());
+        }
+        out.class = format!("b{}:exit{:?}", idx % 6, obs.exit_code);
+        out
+    }
+}
+
+// ---------------------------------------------------------------------------------------------------------------
 // Cycles whose members also break (or skirt) other rules, next to every kind of user: validators that walk through
 // types (key rules, compactness, ...) rely on the cycle check having run and having seen THESE members too.
 
@@ -1138,12 +1203,15 @@ impl Family for WhitespaceKinds {
 // ---------------------------------------------------------------------------------------------------------------
 // Cost growth
 
-pub const GROWTH_FAMILIES: [&str; 19] = [
+pub const GROWTH_FAMILIES: [&str; 21] = [
     "layered-dag-width-2", "layered-dag-width-3", "fan-in-dag", "deep-sequence-nesting", "deep-parenthesised-if", "deep-if-nesting", "long-alias-chain", "inheritance-lattice-width-2", "many-fields", "many-definitions", "long-doc-comment", "layered-dag-with-back-edge",
     "deep-dictionary-value-nesting", "alias-tower-of-results", "alias-tower-with-users", "alias-tower-of-dictionaries",
     // a cycle that has nothing to do with the dense part, met BEFORE it, after it, and in the middle of it: what the
     // cycle detector remembers (or counts) while it reports the cycle must not change the cost of the rest
     "self-cycle-then-layered-dag", "layered-dag-then-self-cycle", "enum-cycle-inside-fan-in-dag",
+    // dictionary keys: compact structs whose fields share their (compact struct) types, all valid and with a field
+    // type at the bottom that no key may have
+    "compact-key-tower", "invalid-compact-key-tower",
 ];
 
 pub fn growth_instance(fam: usize, size: usize) -> String {
@@ -1255,6 +1323,14 @@ pub fn growth_instance(fam: usize, size: usize) -> String {
             if !first {
                 s.push_str("struct Loop { next: Loop }\n");
             }
+        }
+        "compact-key-tower" | "invalid-compact-key-tower" => {
+            let bottom = if GROWTH_FAMILIES[fam] == "compact-key-tower" { "int32" } else { "float64" };
+            s.push_str(&format!("compact struct K0 {{ a: {bottom} }}\n"));
+            for i in 1..=size {
+                s.push_str(&format!("compact struct K{i} {{ a: K{} b: K{} }}\n", i - 1, i - 1));
+            }
+            s.push_str(&format!("struct U {{ d: Dictionary<K{size}, bool> e: Sequence<Dictionary<K{size}, K{size}>> }}\n"));
         }
         "enum-cycle-inside-fan-in-dag" => {
             for i in 0..size {
@@ -1639,6 +1715,7 @@ pub fn families(tier: &str) -> Vec<Box<dyn Family>> {
         Box::new(RefusedFiles),
         Box::new(DenseCycles),
         Box::new(DeepNesting),
+        Box::new(PipeProtocol),
         Box::new(CyclesWithUsers),
         Box::new(TokenSoups::new(if quick { 2 } else { 3 }, 0..10)),
         Box::new(TokenMutations::new()),
